@@ -15,6 +15,8 @@ Labels also come as packed 64-bit ids, in unsigned and narrow integer dtypes, as
 live moves through set_labels (with a fresh array, or with the user's own array edited in place).
 Every move is judged against the labelling the workload gave that object (not the one the object holds); a bystander move
 built from the same labelling is called again after its sibling was re-labelled.
+Composites are also written with a single move on the left of a composite; whatever class + and * hand back is judged
+by the composite clauses.
 """
 from __future__ import annotations
 
@@ -34,7 +36,7 @@ ASSUMPTIONS = [
     "composite clauses are judged for composites whose elements share one labeling (m*n and m+m' over equal label arrays)",
     "pre-selected targets are existing non-negative labels",
 ]
-REQUIRED = {"relabelled_live_moves": 100, "bystander_calls_after_a_sibling_was_relabelled": 100, "single_fail_veto_under_constraint": 100, "composite_calls_with_preselected_elements": 300, "single_calls": 3000, "single_success": 1500, "single_fail_no_eligible": 100, "single_fail_veto": 100, "composite_calls": 1500, "composite_partial": 100, "preselected_calls": 300, "molecule_moves": 500, "negative_label_rows_watched": 1000}
+REQUIRED = {"composites_built_with_a_single_move_on_the_left": 100, "relabelled_live_moves": 100, "bystander_calls_after_a_sibling_was_relabelled": 100, "single_fail_veto_under_constraint": 100, "composite_calls_with_preselected_elements": 300, "single_calls": 3000, "single_success": 1500, "single_fail_no_eligible": 100, "single_fail_veto": 100, "composite_calls": 1500, "composite_partial": 100, "preselected_calls": 300, "molecule_moves": 500, "negative_label_rows_watched": 1000}
 SHARD_TIMEOUT = {"quick": 900, "thorough": 3000}
 
 CALC_LOG: list = []
@@ -193,7 +195,7 @@ def judge_comp(rec, comp, ctx, pre, out):
     p0, p1 = pre["pos"], ctx.atoms.positions
     changed = np.where((p0 != p1).any(axis=1))[0]
     veto = any(VETO.get(id(m), "none") != "none" for m in moves)
-    wit = {"n": len(moves), "labels": labelings[0].tolist(), "inner_targets": chosen, "reported_moved": int(comp.number_of_moved_particles), "returned": bool(out), "veto": veto, "changed_rows": changed.tolist(), "operations": [type(m.operation).__name__ for m in moves]}
+    wit = {"n": len(moves), "labels": labelings[0].tolist(), "inner_targets": chosen, "reported_moved": getattr(comp, "number_of_moved_particles", None), "class": type(comp).__name__, "returned": bool(out), "veto": veto, "changed_rows": changed.tolist(), "operations": [type(m.operation).__name__ for m in moves]}
     if not shared:
         rec.count("composite_unshared_labeling_not_judged")
         return
@@ -218,7 +220,9 @@ def judge_comp(rec, comp, ctx, pre, out):
         rec.viol("C11/composite/wrong-number-of-particles", f"composite of {len(moves)} moves displaced {nmoved} particles, expected min(n, eligible)={want}", wit)
     if nmoved < len(moves):
         rec.count("composite_partial")
-    if int(comp.number_of_moved_particles) != nmoved:
+    if getattr(comp, "number_of_moved_particles", None) is None:
+        rec.viol("C11/composite/reported-count-missing", f"the composite ({type(comp).__name__}) does not report how many particles it moved", wit)
+    elif int(comp.number_of_moved_particles) != nmoved:
         rec.viol("C11/composite/reported-count-wrong", f"composite reports {comp.number_of_moved_particles} moved particles, {nmoved} really moved", wit)
     if bool(out) != (nmoved > 0):
         rec.viol("C11/composite/return-value", f"composite returned {out!r} with {nmoved} particles moved", wit)
@@ -304,7 +308,7 @@ def run(spec):
     from ase import Atoms
 
     from quansino.mc.contexts import DisplacementContext
-    from quansino.moves.displacement import DisplacementMove
+    from quansino.moves.displacement import CompositeDisplacementMove, DisplacementMove
 
     rec = Rec(spec["name"])
     install(rec)
@@ -370,14 +374,33 @@ def run(spec):
                     m(ctx)
             else:
                 k = int(rng.integers(1, 7))
-                if rng.random() < 0.6:
+                form = rng.random()
+                if form < 0.5:
                     comp = new_move() * k
-                else:
+                elif form < 0.8 or k < 2:
                     comp = new_move()
                     for _ in range(k - 1):
                         comp = comp + new_move()
                     if k == 1:
                         comp = comp * 1
+                else:
+                    # the same composite written the other way round: a single move on the left of a composite
+                    # (move + move * (k-1), m1 + (m2 + (m3 + ...)))
+                    if rng.random() < 0.5:
+                        comp = new_move() + new_move() * (k - 1)
+                    else:
+                        comp = new_move() * 1
+                        for _ in range(k - 1):
+                            comp = new_move() + comp
+                    rec.count("composites_built_with_a_single_move_on_the_left")
+                if not isinstance(comp, CompositeDisplacementMove):
+                    # whatever kind of object + and * hand back for displacement moves, it is "a composite of n
+                    # displacement moves": judged by the same clauses, called through the harness instead of the class wrapper
+                    rec.count("composites_of_another_class_judged_by_hand")
+                    for _ in range(4):
+                        pre_ = {"pos": ctx.atoms.positions.copy(), "inner": len(INNER)}
+                        judge_comp(rec, comp, ctx, pre_, comp(ctx))
+                    continue
                 for _ in range(2):
                     nn = np.unique(labels[labels >= 0])
                     if len(nn) and rng.random() < 0.5:
